@@ -43,7 +43,8 @@ var c19LastID = -1 // last echo identifier seen on the wire in this process
 
 type pingExtra struct {
 	at   time.Duration
-	kind string // foreign, request-same-id, truncated, duplicate
+	kind string // foreign, request-same-id, truncated, duplicate, other-type-same-id
+	typ  int    // other-type-same-id: which message type
 }
 
 func echoFrame(nic mon.NIC, p *pingSpec, typ4, typ6 byte, id uint16, truncate bool) []byte {
@@ -137,7 +138,7 @@ func c19Scenario(c *wk.Ctx, idx int64, r *rand.Rand) (nontrivial string, viol bo
 			if at == p.matchAt {
 				at++
 			}
-			p.extras = append(p.extras, pingExtra{at: at + 17*time.Microsecond, kind: []string{"foreign", "request-same-id", "truncated", "duplicate"}[r.Intn(4)]})
+			p.extras = append(p.extras, pingExtra{at: at + 17*time.Microsecond, kind: []string{"foreign", "request-same-id", "truncated", "duplicate", "other-type-same-id"}[r.Intn(5)], typ: r.Intn(64)})
 		}
 		if p.eff > maxT {
 			maxT = p.eff
@@ -325,6 +326,7 @@ func c19Scenario(c *wk.Ctx, idx int64, r *rand.Rand) (nontrivial string, viol bo
 		frame []byte
 	}
 	var arr []arrival
+	otherTypes := 0
 	unused := uint16(40000 + r.Intn(20000))
 	for ids[unused] > 0 {
 		unused++
@@ -344,6 +346,15 @@ func c19Scenario(c *wk.Ctx, idx int64, r *rand.Rand) (nontrivial string, viol bo
 				arr = append(arr, arrival{x.at, echoFrame(nic, p, 8, 128, p.id, false)})
 			case "truncated":
 				arr = append(arr, arrival{x.at, echoFrame(nic, p, 0, 129, p.id, true)})
+			case "other-type-same-id":
+				// any other ICMP message whose bytes 4..5 happen to equal the identifier (flags of a neighbour advertisement,
+				// the unused word of an error, an identifier of a timestamp request): only an echo reply answers a ping
+				t4 := []byte{3, 4, 5, 9, 10, 11, 12, 13, 14, 15, 16, 17, 18, 30, 42, 43}
+				t6 := []byte{1, 2, 3, 4, 127, 130, 131, 132, 133, 134, 135, 136, 137, 143, 200, 255}
+				q := *p
+				q.datalen = 0
+				arr = append(arr, arrival{x.at, echoFrame(nic, &q, t4[x.typ%len(t4)], t6[x.typ%len(t6)], p.id, false)})
+				otherTypes++
 			case "duplicate":
 				if p.matchAt >= 0 && p.matchAt < p.eff {
 					arr = append(arr, arrival{p.matchAt + 29*time.Microsecond, echoFrame(nic, p, 0, 129, p.id, false)})
@@ -411,6 +422,7 @@ func c19Scenario(c *wk.Ctx, idx int64, r *rand.Rand) (nontrivial string, viol bo
 		}
 	}
 	c.Obs("pings", int64(n))
+	c.Obs("other_icmp_types_carrying_the_identifier", int64(otherTypes))
 	if c.WantSample() && !viol && n <= 3 {
 		c.Sample(cs())
 	}
